@@ -11,12 +11,15 @@ import traceback
 REGISTRY = {
     "C03": ("p_matryoshka", "C03"),
     "C04": ("p_matryoshka", "C04"),
+    "C06": ("p_formulasync", "C06"),
     "C07": ("p_resampler", "C07"),
     "C08": ("p_resampler", "C08"),
+    "C09": ("p_ringbuffer", "C09"),
     "C11": ("p_powermanager", "C11"),
     "C12": ("p_graphformulas", "C12"),
     "C14": ("p_powerdist", "C14"),
     "C15": ("p_results", "C15"),
+    "C19": ("p_formulasync", "C19"),
     "C20": ("p_datasourcing", "C20"),
 }
 
